@@ -131,8 +131,8 @@ def decQubits (tag : String) : Sexp → Option (List Qubit)
   | .list (.atom t :: qs) => if t == tag then qs.mapM decQubit else none
   | _ => none
 
-def decStep : Sexp → Option (List Instr × List Qubit)
-  | .list [.atom "step", b, u] => do some (← decBody b, ← decQubits "used" u)
+def decStep : Sexp → Option (List Instr × List Qubit × List Qubit)
+  | .list [.atom "step", b, u, d] => do some (← decBody b, ← decQubits "used" u, ← decQubits "defq" d)
   | _ => none
 
 /-- canonical form of a qubit set: encoded, sorted, duplicates removed -/
@@ -160,13 +160,18 @@ def handleSeq (inp out : Sexp) : CaseResult :=
           let mUsed := match m with
             | some outs => (body :: outs).map (fun b => canonQubits (usedQubitsOf defq b))
             | none => []
-          let iUsed := canonQubits used0 :: isteps.map (fun st => canonQubits st.2)
+          let iUsed := canonQubits used0 :: isteps.map (fun st => canonQubits st.2.1)
           let agreeUsed := mUsed == iUsed
           -- spec on the implementation's outputs
           let spec := seqSpecB calls body ibodies
           -- cache = qubits of the listing (all qubits, harness traversal) after each call
           let cacheOk := (canonQubits used0 == canonQubits (defq ++ body.flatMap Instr.allQubits)) &&
-            isteps.all (fun st => canonQubits st.2 == canonQubits (defq ++ st.1.flatMap Instr.allQubits))
+            isteps.all (fun st => canonQubits st.2.1 == canonQubits (defq ++ st.1.flatMap Instr.allQubits))
+          -- resolution touches the body only: the definitions' qubits (placeholders included) stay as they were
+          let defsSame := isteps.all (fun st => st.2.2 == defq)
+          let defPh := defq.any (fun q => match q with | .placeholder _ => true | _ => false)
+          let sharedPh := defq.any (fun q => match q with
+            | .placeholder k => (body.flatMap Instr.allQubits).contains (.placeholder k) | _ => false)
           let noFixed := (body.flatMap Instr.allQubits).all (fun q => match q with | .fixed _ => false | _ => true)
           let defFixed := defq.any (fun q => match q with | .fixed _ => true | _ => false)
           let modes := "+".intercalate (calls.map (fun c => match c.mode with
@@ -184,8 +189,11 @@ def handleSeq (inp out : Sexp) : CaseResult :=
             ++ (if !agreeUsed then ["USED-CACHE-DISAGREE"] else [])
             ++ (if !spec then ["STEP-SPEC-FAIL"] else [])
             ++ (if !cacheOk then ["CACHE-NOT-LISTING"] else [])
+            ++ (if !defsSame then ["DEFINITIONS-CHANGED"] else [])
+            ++ [(if sharedPh then "placeholder-shared-with-calibration" else if defPh then "calibration-placeholders"
+                 else "no-calibration-placeholders")]
             ++ (if !wp then ["PROJECTION-NOT-WELL-FORMED"] else [])
-          { agree := agreeBodies && agreeUsed && wp, specOk := spec && cacheOk,
+          { agree := agreeBodies && agreeUsed && wp && defsSame, specOk := spec && cacheOk && defsSame,
             nontrivial := (qubitPlaceholders body).length + (targetPlaceholders (getTargets body)).length > 0,
             tags := tags,
             detail := s!"model={repr m} modelUsed={mUsed} impl={out}" }
@@ -195,9 +203,54 @@ def handleSeq (inp out : Sexp) : CaseResult :=
     | _, _, _ => .bad s!"undecodable input {inp}"
   | _ => .bad s!"undecodable input {inp}"
 
+def decNats (tag : String) : Sexp → Option (List Nat)
+  | .list (.atom t :: ks) => if t == tag then ks.mapM Sexp.asNat? else none
+  | _ => none
+
+/-- The public default resolvers queried directly: every queried placeholder must get exactly the
+model's table entry (`none` for a placeholder that is not in the body). -/
+def handleTables (inp out : Sexp) : CaseResult :=
+  match inp with
+  | .list [.atom "tables", bs, tqs, qqs] =>
+    match decBody bs, decNats "tq" tqs, decNats "qq" qqs with
+    | some body, some tq, some qq =>
+      let dq := defaultQubitResolutions body
+      let mdt : Sexp := match defaultTargetResolutions body with
+        | some dt => .list (.atom "dt" :: tq.map fun k => .list [.atom (toString k),
+            match lookupS k dt with | some l => .str l | none => .atom "none"])
+        | none => .atom "model-out-of-fuel"
+      let mdq : Sexp := .list (.atom "dq" :: qq.map fun k => .list [.atom (toString k),
+            match lookupN k dq with | some v => .atom (toString v) | none => .atom "none"])
+      let mOut : Sexp := .list [.atom "tables", mdt, mdq]
+      -- spec on the implementation's tables: values of body placeholders pairwise distinct, not fixed labels /
+      -- used fixed qubits; placeholders outside the body get none
+      let specOk := match out with
+        | .list [.atom "tables", .list (.atom "dt" :: es), .list (.atom "dq" :: qs)] =>
+          let labels := es.filterMap fun | .list [_, .str l] => some l | _ => none
+          let vals := qs.filterMap fun | .list [_, .atom v] => v.toNat? | _ => none
+          let fixedL := fixedLabels (getTargets body)
+          let usedQ := (body.flatMap Instr.allQubits).filterMap fun | .fixed n => some n | _ => none
+          let bodyT := (targetPlaceholders (getTargets body)).map (·.1)
+          let bodyQ := (body.flatMap Instr.allQubits).filterMap fun | .placeholder k => some k | _ => none
+          labels.all (fun l => !fixedL.contains l) && vals.all (fun v => !usedQ.contains v) &&
+          labels.eraseDups.length == labels.length && vals.eraseDups.length == vals.length &&
+          es.all (fun | .list [.atom k, v] => (match k.toNat? with
+              | some k => (bodyT.contains k) == (match v with | .str _ => true | _ => false) | none => false) | _ => false) &&
+          qs.all (fun | .list [.atom k, v] => (match k.toNat? with
+              | some k => (bodyQ.contains k) == (v != .atom "none") | none => false) | _ => false)
+        | _ => false
+      { agree := mOut == out && wellProjectedB body, specOk := specOk,
+        nontrivial := tq.length + qq.length > 2,
+        tags := ["tables", s!"tq{min tq.length 6}", s!"qq{min qq.length 6}",
+          (if tq.length + qq.length > 64 then "more-than-64-placeholders" else "few-placeholders")],
+        detail := s!"model={mOut} impl={out}" }
+    | _, _, _ => .bad s!"undecodable input {inp}"
+  | _ => .bad s!"undecodable input {inp}"
+
 def handle (inp out : Sexp) : CaseResult :=
   match inp with
   | .list (.atom "seq" :: _) => handleSeq inp out
+  | .list (.atom "tables" :: _) => handleTables inp out
   | _ => handleOne inp out
 
 end QV.C34
